@@ -532,6 +532,9 @@ func ZZ_C01_interference() {
 			"b = make([]*float64, 1); b[0] = make([]*int64, 1)[0]; b", "c = make(chan *float64, 1); c <- make([]*int64, 1)[0]", "m = make(map[string]*float64); m[\"a\"] = make([]*int64, 1)[0]",
 			"m = make(map[*float64]string); m[make([]*int64, 1)[0]] = \"a\"", "x = reterr(); x.Error()", "reterr().Error()", "x = reterr(); x.Error", "go reterr().Error()", "defer reterr().Error()",
 			"x = reterr(); x.nosuch = 1", "var a, b = 1; [a, b]", "var a, b, c = 1, 2; c.x",
+			// strings whose byte length and character count differ
+			"a = \"日本\"; a[2]", "a = \"日本\"; a[5]", "a = \"héllo\"; r = []; for i = 0; i < len(a); i++ { r += a[i] }; r", "a = \"日本\"; a[1:2]", "a = \"日本\"; a[2:]", "a = \"日本\"; a[4] = \"x\"; a",
+			"a = \"日本\"; a[6] = \"x\"; a", "a = \"é\"; a[1]", "a = \"\\xff\\xfe\"; a[1]", "a = \"日本\"; for c in a { }", "a = \"日本\"; a[-1]", "a = \"日本\"; a[1] = \"\"; a",
 			"a = make([]chan int64, 1); close(a[0])", "a = make([]*int64, 1); a[0].x", "a = make([]*int64, 1); delete(a[0], 1)", "a = make([]*int64, 1); for x in a[0] { }", "a = make([]*int64, 1); len(a[0])", "a = make([]*int64, 1); a[0][0]",
 			"a = make([]*int64, 1); a[0][0] = 1", "a = make([]*int64, 1); a[0]()", "a = make([]*int64, 1); f = func(x...) { return x }; f(a[0]...)", "a = make([]*int64, 1); 1 in a[0]", "a = make([]*int64, 1); make([]int64, a[0])"}
 		oi := zz.Choose(len(ops))
